@@ -12,17 +12,44 @@ bytes as one `raw` chunk, the reader delivers the parsed value; see notes.)
 namespace J5V.Codec
 open J5V.Go J5V.Json
 
-/-- the encoder's tree for a j5 Any with `j5_json` -/
+theorem chunkNode_some (O : Oracle) (bs : Bytes) (V : PTree) (h : O.chunk bs = some V)
+    (hr : V.render = bs) : chunkNode O bs = V := by
+  unfold chunkNode; simp [h, hr]
+
+theorem chunkNode_none (O : Oracle) (bs : Bytes) (h : O.chunk bs = none) : chunkNode O bs = .raw bs := by
+  unfold chunkNode; simp [h]
+
+/-- the encoder's tree for a j5 Any with `j5_json`: the bytes as one chunk (in parsed form when
+the specification-side oracle recognises them — same bytes, `chunkNode_render`) -/
 theorem enc_any_j5 (env : Env) (O : Oracle) (f : Nat) (tn proto j5 : Bytes) (ik : InnerKind)
     (iroot : String) (inner : PVal) (hj : j5 ≠ []) (hu : isValidUtf8 tn = true) :
     ∃ tlit nlit vlit, encValue env O (f + 1) (.any false) (.anyJ5 tn proto j5 ik iroot inner) =
-      .ok (.obj (.cons typeKey tlit (.str tn nlit) (.cons valueKey vlit (.raw j5) (.nil .closed)))) := by
+      .ok (.obj (.cons typeKey tlit (.str tn nlit) (.cons valueKey vlit (chunkNode O j5) (.nil .closed)))) := by
   obtain ⟨tlit, htl⟩ := (appendString_total typeKey).2.1 (by decide)
   obtain ⟨vlit, hvl⟩ := (appendString_total valueKey).2.1 (by decide)
   obtain ⟨nlit, hnl⟩ := strNode_ok tn hu
   refine ⟨tlit, nlit, vlit, ?_⟩
   have hne : j5.isEmpty = false := by cases j5 with | nil => exact absurd rfl hj | cons a b => rfl
   simp [encValue, hne, htl, hvl, hnl]
+
+/-- what `valOk` says about a j5 `Any` value -/
+theorem valOk_any (env : Env) (O : Oracle) (v : PVal) (h : valOk env O (.any false) v = true) :
+    ∃ tn j5 V, v = .anyJ5 tn [] j5 .none "" (.msg []) ∧ env.noAny = false ∧ isValidUtf8 tn = true ∧
+      j5 ≠ [] ∧ O.chunk j5 = some V ∧ V.render = j5 ∧ V.complete = true ∧ V.depth ≤ 10000 := by
+  cases v with
+  | anyJ5 tn proto j5 ik iroot inner =>
+    unfold valOk at h
+    split at h
+    · next heq1 heq2 heq3 heq4 =>
+      cases hch : O.chunk j5 with
+      | none => simp [hch] at h
+      | some V =>
+        simp only [hch, Bool.and_eq_true, Bool.not_eq_true', beq_iff_eq, decide_eq_true_eq] at h
+        obtain ⟨⟨⟨hna, hu⟩, hj⟩, ⟨hr, hc⟩, hd⟩ := h
+        refine ⟨tn, j5, V, rfl, hna, hu, ?_, hch, hr, hc, hd⟩
+        intro hnil; rw [hnil] at hj; cases hj
+    · cases h
+  | _ => simp [valOk] at h
 
 /-- the decoder (without `WithProtoToAny`) recovers type name and value bytes from the framed
 value, whatever the order of the two members is not needed here: canonical order -/
@@ -46,5 +73,17 @@ theorem dec_any_j5 (c : Cfg) (hmode : c.protoToAny = false) (props : List PropDe
   simp only [decAnyMembers, typeKey, valueKey, if_true, hvk, if_false, ne_eq, not_true_eq_false,
     Option.isSome_none, Bool.false_eq_true, hpop]
   simp [finishAnyProp, Outcome.bind, hmode, closeOk]
+
+/-- a framed value `{"!type": tn, "value": V}` decodes (codec without `WithProtoToAny`) to the j5
+`Any` that holds the compact bytes of `V`, in the only decoding context an `Any` can stand in
+(property value; arrays / maps of `Any` are not supported by the codec) -/
+theorem Dec_any (c : Cfg) (hmode : c.protoToAny = false) (tn tlit nlit vlit : Bytes) (tv : PTree)
+    (hc : tv.complete = true) (hd : tv.depth ≤ 10000) :
+    Dec c (.any false) (.anyJ5 tn [] tv.render .none "" (.msg []))
+      (.obj (.cons typeKey tlit (.str tn nlit) (.cons valueKey vlit tv (.nil .closed)))) where
+  prop := fun props p st hf hp hs _ hgb =>
+    dec_any_j5 c hmode props p st tn tlit nlit vlit tv hf hp hs hgb hc hd
+  elem := fun h => by simp [itemSimple] at h
+  mapv := fun h => by simp [itemSimple] at h
 
 end J5V.Codec
